@@ -8,6 +8,7 @@ import (
 	"time"
 
 	"github.com/hashicorp/raft"
+	"github.com/rqlite/rqlite/v10/internal/verifhook"
 	"github.com/rqlite/rqlite/v10/snapshot"
 )
 
@@ -69,8 +70,14 @@ func (f *FSMSnapshot) Persist(sink raft.SnapshotSink) (retError error) {
 			stats.Add(numSnapshotPersistsFailed, 1)
 		}
 	}()
+	if err := verifhook.Hit("store.persist.before"); err != nil {
+		return err
+	}
 	if err := f.FSMSnapshot.Persist(sink); err != nil {
 		fsmSnapshotErrLogger.Printf("failed to persist %s snapshot %s: %v", f.Type, sink.ID(), err)
+		return err
+	}
+	if err := verifhook.Hit("store.persist.before-finalizer"); err != nil {
 		return err
 	}
 	if f.Finalizer != nil {
